@@ -227,6 +227,7 @@ LitOwn(st, dv, variant, n) ==
     [] variant = "set_b"    -> <<Ent("b", FALSE, "u", 0, 0, 1, TRUE)>>
     [] variant = "comp_b"   -> <<Ent(IF "Dev_ComputedKeyLiteral" \in dv THEN "kb" ELSE "b", TRUE, VNum(n), c, 0, 0, TRUE)>>
     [] variant = "proto"    -> <<Ent("a", TRUE, VNum(n), c, 0, 0, TRUE)>>
+    [] variant = "protogs"  -> <<Ent("a", FALSE, "u", 0, 1, 1, TRUE)>>                   \* {__proto__: p, get a(){..}, set a(v){..}}
 LitVariants == {"empty", "data_a", "data_1", "two", "getter_a", "getset_a", "set_b", "comp_b"}
 
 NewObj(st, x, kind, p, own) == [st EXCEPT !.h[x] = [kind |-> kind, proto |-> p, own |-> own], !.clk = st.clk + 2]
@@ -262,6 +263,7 @@ CreationOps(st, n, c) ==
   IF x = "none" THEN {}
   ELSE {Op("lit", x, "", v, n, "") : v \in LitForms(c)}
        \cup {Op("lit", x, "", "proto", n, p) : p \in PlainObjs(st)}
+       \cup {Op("lit", x, "", "protogs", 0, p) : p \in PlainObjs(st)}
        \cup {Op("create", x, "", "", 0, p) : p \in PlainObjs(st) \cup {"null"}}
        \cup {Op("new", x, "", f, m, "") : f \in Fns, m \in IF c THEN {n} ELSE {0, n}}
        \cup {Op("func", x, "", "", 0, "")}
